@@ -14,7 +14,8 @@
 (* exist here, and Z, a process that has just ended: its entry is still in *)
 (* the process table but its mailbox is closed (the window between a       *)
 (* process task's end and its removal); one outstanding remote call.       *)
-(* A local operation may terminate P2 between frames.                      *)
+(* Local operations between frames: P2 terminates; the name alpha moves    *)
+(* to P2 while P1 keeps running, or is unregistered.                       *)
 (***************************************************************************)
 EXTENDS Integers, Sequences, FiniteSets, TLC
 CONSTANT MaxFrames
@@ -51,7 +52,13 @@ Frame(kind, tgt) ==
 \* a local operation between frames: P2 terminates (its handler fails on a local message)
 KillP2 == /\ "P2" \in live /\ n < MaxFrames /\ live' = live \ {"P2"} /\ hist' = Append(hist, <<"kill", "P2">>)
           /\ UNCHANGED <<alive, registered, nameOf, callOpen, callGot, delivered, n>>
-Next == \/ \E k \in {"send_pid", "exit", "monitor_exit"}, t \in Targets : Frame(k, t)
+\* local registry operations between frames: the name changes hands while its former holder keeps running, or is given up
+MoveName == /\ nameOf = "P1" /\ "P2" \in live /\ n < MaxFrames /\ nameOf' = "P2" /\ hist' = Append(hist, <<"move_name", "P2">>)
+            /\ UNCHANGED <<alive, registered, live, callOpen, callGot, delivered, n>>
+DropName == /\ nameOf # "none" /\ n < MaxFrames /\ nameOf' = "none" /\ hist' = Append(hist, <<"drop_name", "alpha">>)
+            /\ UNCHANGED <<alive, registered, live, callOpen, callGot, delivered, n>>
+Next == \/ MoveName \/ DropName
+        \/ \E k \in {"send_pid", "exit", "monitor_exit"}, t \in Targets : Frame(k, t)
         \/ \E t \in Names : Frame("send_name", t)
         \/ \E t \in {"call", "unknown"} : Frame("rpc_reply", t)
         \/ \E k \in Junk \cup Fatal : Frame(k, "-")
